@@ -327,14 +327,13 @@ class CallTracer:
             self.logger.log(trace)
 
     def __call__(self, frame: FrameType, event: str, arg: Any) -> "CallTracer":
-        code = frame.f_code
-        if (
-            event not in SUPPORTED_EVENTS
-            or self.should_trace is not None
-            and not self.should_trace(code)
-        ):
+        if event not in SUPPORTED_EVENTS:
             return self
         try:
+            # The code filter runs inside the handler as well: what it raises (the
+            # default one asks the file system) must not reach the traced program.
+            if self.should_trace is not None and not self.should_trace(frame.f_code):
+                return self
             if event == EVENT_CALL:
                 self.handle_call(frame)
             elif event == EVENT_RETURN:
